@@ -7,9 +7,7 @@ Proof. revert i; induction l as [|x l IH]; intros [|i]; cbn; auto. Qed.
 Lemma set_nth_comm {A} (l : list A) i j a b :
   i <> j -> set_nth (set_nth l i a) j b = set_nth (set_nth l j b) i a.
 Proof.
-  revert i j; induction l as [|x l IH]; intros [|i] [|j] H; cbn; auto.
-  - now elim H.
-  - f_equal. apply IH. intros E; apply H; now f_equal.
+  revert i j; induction l as [|x l IH]; intros [|i] [|j] H; cbn; auto; try (now elim H); try (f_equal; apply IH; intros E; apply H; now f_equal).
 Qed.
 
 Lemma set_nth_twice {A} (l : list A) i a b : set_nth (set_nth l i a) i b = set_nth l i b.
@@ -17,9 +15,7 @@ Proof. revert i; induction l as [|x l IH]; intros [|i]; cbn; auto. f_equal; appl
 
 Lemma nth_error_set_nth_ne {A} (l : list A) i j a : i <> j -> nth_error (set_nth l i a) j = nth_error l j.
 Proof.
-  revert i j; induction l as [|x l IH]; intros [|i] [|j] H; cbn; auto.
-  - now elim H.
-  - apply IH. intros E; apply H; now f_equal.
+  revert i j; induction l as [|x l IH]; intros [|i] [|j] H; cbn; auto; try (now elim H); try (apply IH; intros E; apply H; now f_equal).
 Qed.
 
 Lemma nth_error_set_nth_eq {A} (l : list A) i a : (i < length l)%nat -> nth_error (set_nth l i a) i = Some a.
@@ -29,9 +25,7 @@ Qed.
 
 Lemma nth_set_nth_ne {A} (l : list A) i j a dflt : i <> j -> nth j (set_nth l i a) dflt = nth j l dflt.
 Proof.
-  revert i j; induction l as [|x l IH]; intros [|i] [|j] H; cbn; auto.
-  - now elim H.
-  - apply IH. intros E; apply H; now f_equal.
+  revert i j; induction l as [|x l IH]; intros [|i] [|j] H; cbn; auto; try (now elim H); try (apply IH; intros E; apply H; now f_equal).
 Qed.
 
 Lemma nth_set_nth_eq {A} (l : list A) i a dflt : (i < length l)%nat -> nth i (set_nth l i a) dflt = a.
@@ -148,7 +142,7 @@ Fixpoint wr (ws : list Z) (outs : list nat) (rs : list (option Z)) (w : nat) : o
 
 Lemma wr_in ws outs rs w x : wr ws outs rs w = Some x -> In w outs.
 Proof.
-  revert rs; induction outs as [|o outs IH]; intros [|[v|] rs]; cbn [wr]; try discriminate.
+  revert rs x; induction outs as [|o outs IH]; intros [|[v|] rs] x; cbn [wr]; try discriminate.
   - destruct (wr ws outs rs w) eqn:E.
     + intros _. right. eapply IH, E.
     + destruct (Nat.eqb_spec o w) as [->|]; [now left | discriminate].
@@ -170,7 +164,7 @@ Qed.
 (* ------------------------------------------------------------------ prep (sequential prepares) *)
 Lemma prep_wires ws outs rs w : In w (map fst (prep ws outs rs)) -> In w outs.
 Proof.
-  revert rs; induction outs as [|o outs IH]; intros [|[v|] rs]; cbn [prep map In fst]; auto.
+  revert rs; induction outs as [|o outs IH]; intros [|[v|] rs]; cbn [prep map In fst]; try tauto.
   - intros [E|H]; [now left | right; eapply IH, H].
   - intros H. right; eapply IH, H.
 Qed.
@@ -258,7 +252,7 @@ Proof.
     destruct a as [|a]; cbn [nth_error] in Ha.
     + inversion Ha; subst. rewrite forallb_forall in H1.
       apply disj_b_spec, H1. eapply nth_error_In, Hb.
-    + eapply IH; eauto. lia.
+    + apply (IH H2 a b xa xb); auto. lia.
 Qed.
 
 Lemma pairwise_disj_b_spec ls :
